@@ -431,6 +431,10 @@ def get_plan(pid):
     raise KeyError(pid)
 
 
+# proof-chain premises re-established inside a check (cheap ones only; C02 as a premise of C03 / C14 is too heavy and is covered by those checks' bounded parts)
+PREMISES = {"C04": ["C01"], "C17": ["C06"], "C14": ["C01"], "C08": ["C05"]}
+
+
 # ---------------------------------------------------------------------------------------------------------------
 def run_property(pid, tier, seed, nproc):
     t0 = time.time()
@@ -458,6 +462,18 @@ def run_property(pid, tier, seed, nproc):
             json.dump({k: [d["status"], d.get("vcs"), round(d.get("secs") or 0, 2), d.get("backends")] for k, d in named.items()}, f, indent=0)
     own = {k: d for k, d in named.items() if plan.own(k)}
     foreign_bad = [k for k, d in named.items() if not plan.own(k) and d["status"] != "unsat" and k not in getattr(plan, "helper_obligations", ())]
+    # premises: properties whose contracts this property's proof part uses as lemmas are re-established on this tree (their own obligations, not their
+    # bounded parts); a premise that fails leaves this property undecided - it is never turned into a violation of this property
+    premise_notes = []
+    for ppid in PREMISES.get(pid, []):
+        pplan = get_plan(ppid)
+        pn, _pf, pc, _ = pplan.stages(tier, nproc)
+        pbase = common.load_baseline(ppid)
+        plisted = [sfx for e in findings if e.get("status") == "finding" and e.get("property") == ppid for sfx in e.get("match", {}).get("obligation_suffixes", [])]
+        bad = [k for k, d in pn.items() if pplan.own(k) and d["status"] != "unsat" and not any(k.endswith(x) for x in plisted)]
+        crashes += pc
+        premise_notes.append({"premise": ppid, "obligations": sum(1 for k in pn if pplan.own(k)), "not_discharged": bad[:10]})
+        foreign_bad += [f"{ppid}: {k}" for k in bad[:5]]
     for k, d in sorted(own.items()):
         if d["status"] == "unknown":
             undecided.append({"obligation": k, "detail": d.get("detail")})
@@ -533,7 +549,7 @@ def run_property(pid, tier, seed, nproc):
         "trusted_base": plan.trusted_base, "solver_time_s": round(solver_s, 2), "backends": backends,
         "functions_under_contract": functions, "source_sha256": common.source_hashes(),
         "bounded_parts": bounded_parts, "samples": samples, "notes": notes,
-        "undecided": undecided, "foreign_obligations_not_discharged": foreign_bad,
+        "undecided": undecided, "foreign_obligations_not_discharged": foreign_bad, "premises_re_established": premise_notes,
         "known_findings_seen": [h["id"] for h, _ in known],
         "evaluations": sum(b["evaluations"] for b in bounded_parts) + vcs,
         "distinct_nontrivial": sum(b["distinct_nontrivial"] for b in bounded_parts) + n_obl,
